@@ -366,7 +366,7 @@ impl<'a> Gen<'a> {
     }
     fn newcol(&mut self, name: i64, with_default: bool) -> Col {
         let ty = self.rng.range(0, 2);
-        let def = if with_default { let mut v = self.val(ty, false); if let V::I(x) = v { if x.abs() > 1000 { v = V::I(7); } } v } else { V::N };
+        let def = if with_default { let mut v = self.val(ty, false); if let V::I(x) = v { if x.unsigned_abs() > 1000 { v = V::I(7); } } v } else { V::N };
         Col { name, ty, def }
     }
     fn tomb(&mut self, t: i64) -> &mut Track {
@@ -632,6 +632,7 @@ fn sql_mode(a: &Args) {
 
 fn main() {
     let a = Args::parse();
+    if std::env::var("C21_DEBUG").is_ok() { let _ = std::panic::take_hook(); }
     match a.mode.as_str() {
         "gen" => gen(&a),
         "search" => search(&a),
